@@ -21,6 +21,8 @@
                     reaches the proxy (or, GET /eth/v1/events, the upstream) and never a Handler method
      NoCallOnFault  a malformed request is answered 4xx and neither Handler nor proxy is called
                     (AS CODED several client faults answer 500: constant Malformed, finding GROW-VAPIROUTER-client-fault-500)
+     UpstreamStatusKept  an error of the Handler that carries an API status code (what the beacon node answered) comes back with it
+                    (AS CODED it is a 500: constant ApiErr, finding GROW-VAPIROUTER-upstream-status-500)
      ArgFidelity    what the Handler receives is what the request said
      RespFidelity   what the client decodes is what the Handler returned (data, version / blinded / values in body and headers,
                     execution_optimistic / dependent_root), the proxied response is passed back unchanged
@@ -36,6 +38,8 @@
 EXTENDS Integers, Sequences, FiniteSets, TLC
 
 CONSTANTS Malformed,    \* "ascoded": client faults whose apiError the code discards answer 500 | "strict": they must be 4xx
+          ApiErr,       \* "ascoded": an error of the Handler / of Handler.Proxy that carries an API status code (eth2api.Error, what the
+                        \* beacon node answered) is a 500 | "strict": it comes back with that status
           Variant       \* "none" | a named defect variant (control configurations)
 
 Forks == {"phase0", "altair", "bellatrix", "capella", "deneb", "electra", "fulu"}
@@ -226,6 +230,8 @@ ObjsFixed(c) == T(c).body \in {"objs", "idx"} /\ c.body.form # "wrongfork"
 NoMeta == [x \in {"_"} |-> ""]
 ErrOut(s) == [status |-> s, ctype |-> "json", code |-> s, objs |-> <<>>, meta |-> NoMeta]
 EmptyOut == [status |-> 200, ctype |-> "none", code |-> 0, objs |-> <<>>, meta |-> NoMeta]
+\* writeError knows its own apiError only: any other error is "Internal server error"
+ApiErrStatus(ret) == IF ApiErr = "ascoded" THEN 500 ELSE ret.status
 GoneOut == [status |-> 0, ctype |-> "none", code |-> 0, objs |-> <<>>, meta |-> NoMeta]
 Blocking == {"cancel", "timeout"}
 ImplCtxEnd(kind) == IF kind = "timeout" \/ Variant = "bgctx" THEN "deadline" ELSE "canceled"
@@ -258,11 +264,13 @@ OutsAfter(c, ret) ==
   ELSE IF ret.kind = "cancel" THEN {GoneOut}                 \* the client is gone: nobody sees what is written
   ELSE IF ret.kind = "timeout" THEN {ErrOut(408)}
   ELSE IF ret.kind = "err" THEN {ErrOut(500)}
+  ELSE IF ret.kind = "apierr" THEN {ErrOut(ApiErrStatus(ret))}
   ELSE IF rk = "none" THEN {EmptyOut}
   ELSE IF RetFault(rk, ret) # 0 THEN {ErrOut(RetFault(rk, ret))}
   ELSE {[status |-> 200, ctype |-> "json", code |-> 0, objs |-> o, meta |-> OkMeta(rk, ret)] : o \in DataForms(rk, ret)}
 \* proxy: Handler.Proxy's response is copied (status, headers, body); its error is a 500
 ProxyOut(ret) == IF ret.kind = "err" THEN ErrOut(500)
+                 ELSE IF ret.kind = "apierr" THEN ErrOut(ApiErrStatus(ret))
                  ELSE [status |-> ret.status, ctype |-> "other", code |-> 0, objs |-> <<ret.body>>, meta |-> [hup |-> ret.hdr] @@ NoMeta]
 \* events: httputil.ReverseProxy behind proxyResponseWriter (WriteHeader swallows 2xx -> the implicit 200)
 EventsOut(ret) == IF ret.kind = "err" THEN ErrOut(500)
@@ -348,5 +356,7 @@ ErrorsShaped == Done => /\ out.status >= 400 /\ ~(pcalled /\ pcall.ret.kind = "o
 Blocked == IF hcalled THEN hcall.ret.kind ELSE IF pcalled THEN pcall.ret.kind ELSE "-"
 CtxPropagates == Done => /\ Blocked = "cancel" => ctxend = "canceled"
                          /\ Blocked = "timeout" => ctxend = "deadline" /\ out.status = 408
+\* (finding GROW-VAPIROUTER-upstream-status-500: violated as coded)
+UpstreamStatusKept == Done /\ Blocked = "apierr" => out.status = (IF hcalled THEN hcall.ret.status ELSE pcall.ret.status) /\ out.code = out.status
 Safety == Exclusive /\ NoCallOnFault /\ ArgFidelity /\ RespFidelity /\ ErrorsShaped /\ CtxPropagates
 ====
